@@ -57,12 +57,14 @@ def children_rule(ctx, r, name, children, pts, rel, fname, line, nkids):
 def edge_pairs(fn):
     """{k: (a, b)} for statements  X[.., k] = norm(G.vertices[:, G.elements[a, e]] - G.vertices[:, G.elements[b, e]])."""
     out = {}
+    defs = roles.Defs(fn)
     for st in ast.walk(fn):
-        if not (isinstance(st, ast.Assign) and isinstance(st.targets[0], ast.Subscript) and isinstance(st.value, ast.Call)):
+        if not (isinstance(st, ast.Assign) and isinstance(st.targets[0], ast.Subscript)):
             continue
-        if not unparse(st.value.func).endswith("linalg.norm") or not st.value.args:
+        value = roles.inline(st.value, defs)  # locals naming one of the two end points are read through
+        if not (isinstance(value, ast.Call) and unparse(value.func).endswith("linalg.norm") and value.args):
             continue
-        arg = st.value.args[0]
+        arg = value.args[0]
         if not (isinstance(arg, ast.BinOp) and isinstance(arg.op, ast.Sub)):
             continue
         idx = []
